@@ -35,6 +35,8 @@ def _rank(a, b):
 
 
 class Site:
+    deferred = False
+
     def __init__(self, func, lineno, text, origin, kind, target=""):
         self.func, self.lineno, self.text, self.origin, self.kind, self.target = func, lineno, text, origin, kind, target
 
@@ -43,11 +45,13 @@ class Site:
 
 
 class Analyzer:
-    def __init__(self, module_globals, owned_self_attrs=None, class_names=()):
+    def __init__(self, module_globals, owned_self_attrs=None, class_names=(), summaries=None, cls=None):
         self.module_globals = set(module_globals)
         self.class_names = set(class_names)
         self.owned = owned_self_attrs            # None: every self attribute is the object's own state
         self.sites = []
+        self.summaries = summaries or {}         # qualified name of a private helper -> Summary
+        self.cls = cls
 
     # ---- origin of an expression ---------------------------------------------------------------
     def origin(self, node, env):
@@ -143,10 +147,40 @@ class Analyzer:
         elif isinstance(tgt, ast.Starred):
             self._store_target(fname, st, tgt.value, env, value_origin)
 
+    def _helper_call(self, fname, c, env):
+        """a call of a private helper of the same module / class: what the helper does to its parameters (and to self)
+        happens, as far as the frame is concerned, in the caller"""
+        f = c.func
+        key = None
+        if isinstance(f, ast.Name):
+            key = f.id
+        elif isinstance(f, ast.Attribute) and isinstance(f.value, ast.Name) and f.value.id == "self" and self.cls:
+            key = "%s.%s" % (self.cls, f.attr)
+        sm = self.summaries.get(key)
+        if sm is None:
+            return
+        actual = {}
+        for i, a in enumerate(c.args):
+            if i < len(sm.params):
+                actual[sm.params[i]] = a
+        for k in c.keywords:
+            if k.arg:
+                actual[k.arg] = k.value
+        for pn in sorted(sm.mutated):
+            if pn in actual:
+                base = self._base(actual[pn])
+                self.sites.append(Site(fname, c.lineno, ast.unparse(c)[:120], self.origin(base, env), "call:%s mutates its parameter %s" % (key, pn),
+                                       ast.unparse(base)))
+        if sm.writes_self:
+            self.sites.append(Site(fname, c.lineno, ast.unparse(c)[:120], OWN, "method:%s (writes the object's own state)" % key, "self"))
+        for what in sorted(sm.shared):
+            self.sites.append(Site(fname, c.lineno, ast.unparse(c)[:120], SHARED, "call:%s writes %s" % (key, what), what))
+
     def _calls(self, fname, node, env):
         for c in ast.walk(node):
             if not isinstance(c, ast.Call):
                 continue
+            self._helper_call(fname, c, env)
             if isinstance(c.func, ast.Attribute) and c.func.attr in MUTATING_METHODS:
                 base = self._base(c.func.value)
                 org = self.origin(base, env)
@@ -234,10 +268,66 @@ class Analyzer:
         self.run_block(qualname, fn.body, env)
 
 
+class Summary:
+    def __init__(self, params):
+        self.params = params
+        self.mutated = set()        # parameter names the helper mutates in place
+        self.writes_self = False    # the helper (a method) writes the object's own state
+        self.shared = set()         # module / class level objects it writes (always a violation, also at the caller)
+
+
+def is_private(qualname):
+    last = qualname.split(".")[-1]
+    return last.startswith("_") and not (last.startswith("__") and last.endswith("__"))
+
+
 def analyze_module(source, owned=None):
-    """Returns list of Site for every public function / method of the module source.
-    owned: dict ClassName -> set of self attributes that are the object's own documented mutable state (None = all)."""
+    """Returns list of Site for every function / method of the module source.
+    owned: dict ClassName -> set of self attributes that are the object's own documented mutable state (None = all).
+    Private helpers (leading underscore) are summarised -- which parameters they mutate, whether they write self -- and
+    every call of one is charged to the caller with the caller's origins (iterated to a fixed point), so extracting or
+    inlining a helper does not change the verdict of the public function."""
     tree = ast.parse(source)
+    defs = []
+    for n in tree.body:
+        if isinstance(n, ast.FunctionDef):
+            defs.append((n.name, n, None))
+        elif isinstance(n, ast.ClassDef):
+            for m in n.body:
+                if isinstance(m, ast.FunctionDef):
+                    defs.append(("%s.%s" % (n.name, m.name), m, n.name))
+    summaries = {}
+    for q, fn, cls in defs:
+        if is_private(q):
+            summaries[q] = Summary([a.arg for a in list(fn.args.posonlyargs) + list(fn.args.args) if a.arg not in ("self", "cls")])
+    sites = []
+    for _ in range(4):
+        sites = _analyze(tree, owned, summaries)
+        changed = False
+        for st in sites:
+            sm = summaries.get(st.func)
+            if sm is None:
+                continue
+            if st.origin == ALIAS and st.target in sm.params and st.target not in sm.mutated:
+                sm.mutated.add(st.target)
+                changed = True
+            if st.origin == OWN and st.kind.startswith(("attribute-store", "item-store", "augmented", "method:")) and not sm.writes_self:
+                sm.writes_self = True
+                changed = True
+            if st.origin == SHARED and st.target not in sm.shared:
+                sm.shared.add(st.target or st.text)
+                changed = True
+        if not changed:
+            break
+    for st in sites:
+        st.deferred = False
+        sm = summaries.get(st.func)
+        if sm is not None and ((st.origin == ALIAS and st.target in sm.params) or st.origin == OWN):
+            st.deferred = True          # judged at the callers
+    return sites
+
+
+def _analyze(tree, owned, summaries):
     globals_ = set()
     classes = set()
     for n in tree.body:
@@ -251,13 +341,13 @@ def analyze_module(source, owned=None):
     sites = []
     for n in tree.body:
         if isinstance(n, ast.FunctionDef):
-            a = Analyzer(globals_, None, classes)
+            a = Analyzer(globals_, None, classes, summaries)
             a.function(n, n.name)
             sites += a.sites
         elif isinstance(n, ast.ClassDef):
             for m in n.body:
                 if isinstance(m, ast.FunctionDef):
-                    a = Analyzer(globals_, (owned or {}).get(n.name), classes)
+                    a = Analyzer(globals_, (owned or {}).get(n.name), classes, summaries, cls=n.name)
                     a.function(m, "%s.%s" % (n.name, m.name), True)
                     sites += a.sites
     return sites
